@@ -137,10 +137,28 @@ impl Srv {
         r
     }
 
-    /// Step until quiescent: one step drains everything pending; one more must be a no-op.
+    /// Step until quiescent: repeat until a step polls no event (observed through the `polled`
+    /// hook point), i.e. the last step was an idle no-op. At least two steps are executed.
     pub fn settle(&mut self) -> Result<(), String> {
-        self.step()?;
-        self.step()
+        let polled = std::rc::Rc::new(std::cell::Cell::new(-1i64));
+        let p2 = polled.clone();
+        roughenough::verif::set_callback(Some(Box::new(move |kind, arg| {
+            if kind == "polled" {
+                p2.set(arg);
+            }
+        })));
+        let mut r = self.step();
+        let mut n = 1;
+        while r.is_ok() && (n < 2 || polled.get() != 0) {
+            r = self.step();
+            n += 1;
+            if n > 10_000 {
+                r = Err("harness: settle did not reach quiescence in 10000 steps".into());
+                self.dead = true;
+            }
+        }
+        roughenough::verif::set_callback(None);
+        r
     }
 }
 
